@@ -301,6 +301,39 @@ def run(ctx):  # noqa: C901, PLR0912
     decimal_lexical_rules(ctx, 'C18.R5')
     from . import common
     common.implied_value_only_for_none(ctx, 'C18.R3')
+    common.readers_catch_only_absence(ctx, 'C18.R4')
+    # the value range of a timestamp is the one of xsd:unsignedLong: zero is a value (a device without a clock reports 0) - the
+    # validity check rejects negative values only
+    cv = repo.cls(f'{DC}.TimestampConverter').methods.get('check_valid')
+    if cv is not None:
+        gcv = cfg_of(cv)
+        rej = [b for b in gcv.nodes if b.kind == 'branch' and b.label is True and b.test is not None and
+               isinstance(b.test, ast.Compare) and any(isinstance(k, ast.Constant) and k.value == 0 for k in ast.walk(b.test))
+               and any(r.kind == 'raisestmt' and gcv.dominates(b, r) for r in gcv.nodes)]
+        from engine.cfg import canon_compare
+        strict = [canon_compare(b.test) for b in rej if len(b.test.ops) == 1]
+        # `py_value < 0` / `0 > py_value` are both not(0 <= py_value) in canonical form
+        pname = [a.arg for a in cv.node.args.args if a.arg not in ('self', 'cls')][0]
+        ok_cv = bool(rej) and all((txt, neg) == (f'0 <= {pname}', True) for (txt, neg), b in zip(strict, rej))
+        ctx.ob('C18.R2', 'timestamp 0 is valid', ok_cv,
+               'TimestampConverter.check_valid rejects negative values only' if ok_cv else
+               f'TimestampConverter.check_valid rejects under {[unparse(b.test) for b in rej]}: the legal timestamp 0 raises in '
+               f'the middle of an in-place update of a received state - the consumer keeps a half-updated state', fi=cv)
+    # the list converter hands every element to the element converter, on every path (no short cut that writes str(x): a Decimal
+    # element would get exponent notation and lose the digit limit)
+    lc = repo.cls(f'{DC}.ListConverter')
+    for meth, want in (('elem_to_xml', 'to_xml'), ('elem_to_py', 'to_py')):
+        fi_ = lc.methods.get(meth)
+        if fi_ is None:
+            raise AnalysisError(f'C18.R3: ListConverter.{meth} missing')
+        rets = [r.value for r in walk_no_nested(fi_.node) if isinstance(r, ast.Return)]
+        ok = bool(rets) and all(isinstance(v, ast.Call) and isinstance(v.func, ast.Attribute) and v.func.attr == want and
+                                '_element_converter' in unparse(v.func.value) for v in rets)
+        ctx.ob('C18.R3', f'ListConverter.{meth} delegates every element', ok,
+               f'ListConverter.{meth} returns what the element converter made of the element, on every path' if ok else
+               f'ListConverter.{meth} has a path that does not go through the element converter ({[unparse(v)[:40] for v in rets if v is not None]}): '
+               f'list elements (waveform samples are xsd:decimal) are written / read without the conversion rules of their type',
+               fi=fi_)
     # every scalar that is written goes through its converter - also the elements of list attributes (the samples of a
     # waveform are xsd:decimal values: str() would write exponent notation and skip the digit limit)
     for q_, meth, wanted in ((f'{XS_}._AttributeListBase', 'update_xml_value', 'elem_to_xml'),
@@ -381,6 +414,12 @@ def run(ctx):  # noqa: C901, PLR0912
            'BooleanConverter.to_py accepts the xsd:boolean literals and rejects everything else' if raises and not coerces
            else 'BooleanConverter.to_py returns `value in (true literals)`: every other string ("TRUE", "yes", " true ") '
                 'is coerced to False instead of being rejected', fi=bc)
+    # both lexical forms of `true` are read as True: xsd:boolean is {true, false, 1, 0}
+    lits = {k.value for k in ast.walk(bc.node) if isinstance(k, ast.Constant) and isinstance(k.value, str)}
+    ctx.ob('C18.R4', 'boolean: 1 and true', {'true', '1'} <= lits,
+           'BooleanConverter.to_py knows both lexical forms of true ("true", "1")' if {'true', '1'} <= lits else
+           f'BooleanConverter.to_py compares with {sorted(lits)} only: the legal literal "1" (or "true") of a peer is read as '
+           f'False and written back as "false"', fi=bc)
     ec = repo.cls(f'{DC}.EnumConverter').methods.get('to_py')
     ok = any(unparse(c.func) == 'self._klass' for c in calls_in(ec.node))
     ctx.ob('C18.R4', 'enum literals closed', ok, 'EnumConverter.to_py constructs the enum member (raises for unknown '
